@@ -173,10 +173,12 @@ Print Assumptions C07_spec_set_byte.
    semantics on flat arrays (Spec/MemSpec.v) ---- *)
 
 (* EVERY sequence of MSTORE / MSTORE8 / MLOAD+MSTORE / CALLDATACOPY / CODECOPY /
-   EXTCODECOPY (account with or without code) / RETURNDATACOPY / MCOPY and message calls
+   EXTCODECOPY (account with or without code) / RETURNDATACOPY / MCOPY, message calls
    (arguments read from memory, a callee running its own sequence on a fresh memory,
    RETURN data, copy of min(out size, returned) bytes into the caller's memory, the
-   returndata buffer), from any well-formed frame: the memory and returndata sequences stay
+   returndata buffer) and creations (init code read from memory, run with an empty
+   calldata; the creator's memory untouched, returndata empty unless the init code
+   reverts), from any well-formed frame (a creation frame included): the memory and returndata sequences stay
    well-formed and denote exactly the flat EVM memory / returndata; the frame halts exactly
    when the EVM halts (RETURNDATACOPY beyond the buffer, also for size 0); no Python
    exception (set_slice's ValueError, an assert) escapes *)
@@ -191,6 +193,20 @@ Theorem C07_memops :
     end.
 Proof. exact m_run_correct. Qed.
 Print Assumptions C07_memops.
+
+(* the code a creation deploys is what its init code (mem[loc, loc + size), run on an empty
+   memory with an EMPTY calldata) returns; nothing is deployed exactly when it halts *)
+Theorem C07_created_code :
+  forall (B : Type) (zero : B) (mem : bvec B) (loc size : nat) (body : list (mbop B)) (roff rsize : nat),
+    wf mem -> Forall mbop_ok body ->
+    match init_returns B zero (flat mem) loc size (map abs_mbop body) roff rsize with
+    | Some c =>
+        exists v : bvec B,
+          m_created zero mem loc size body roff rsize = ROk (Some v) /\ wf v /\ flat v = c
+    | None => m_created zero mem loc size body roff rsize = ROk None
+    end.
+Proof. exact created_correct. Qed.
+Print Assumptions C07_created_code.
 
 (* the (start, size) wrappers over ByteVec.slice(start, stop) / set_slice(start, stop, _) *)
 Theorem C07_mslice :
@@ -259,7 +275,9 @@ Print Assumptions C07_spec_round32.
 (* a frame whose code has a concrete prefix (fast path of Contract.slice) and a symbolic
    tail, a call whose callee copies its calldata and code and returns a window of its
    memory, RETURNDATACOPY, an overlapping MCOPY, EXTCODECOPY of an account without code,
-   a size-0 copy, a word moved with MLOAD/MSTORE; RETURNDATACOPY beyond the buffer halts *)
+   a size-0 copy, a word moved with MLOAD/MSTORE, a creation whose init code (6 bytes of
+   the memory) copies its empty calldata and its own code and reverts with 7 bytes;
+   RETURNDATACOPY beyond the buffer halts *)
 Example C07_memops_nonvacuous :
   wf_env ex_env /\ Forall mop_ok ex_ops /\
   (exists st, m_run 0 ex_env (MF empty empty) ex_ops = ROk st /\
@@ -267,7 +285,7 @@ Example C07_memops_nonvacuous :
        [0; 0; 2; 2; 3; 4; 51; 52; 0; 0; 12; 0; 0; 0; 15; 60; 61; 0; 0; 0; 51; 52; 23; 24; 0; 0; 0; 0; 0; 0;
         0; 0; 99; 0; 0; 0; 0; 0; 0; 0;
         51; 52; 23; 24; 0; 0; 0; 0; 0; 0; 0; 0; 99; 0; 0; 0; 0; 0; 0; 0; 0; 0; 0; 0; 0; 0; 0; 0; 0; 0; 0; 0] /\
-     flat (m_rd st) = [51; 52; 23; 24; 0; 0; 0; 99; 0]) /\
+     flat (m_rd st) = [0; 0; 0; 2; 3; 4; 51]) /\
   m_run 0 ex_env (MF empty empty) [MB (MRetCopy 0 1 0)] = RHalt.
 Proof. exact memops_example. Qed.
 
